@@ -247,6 +247,19 @@ pub fn run(ctx: &Ctx) -> Value {
                 "2015-2-18T23:16:09Z", "2015-02-18T23:16:9Z", "20150218T231609Z", "2015-02-18T24:00:00Z", "2015-02-30T00:00:00Z", "2015-02-18T23:16:09Z ",
                 " 2015-02-18T23:16:09Z", "2015-02-18T23:16:09UTC", "+2015-02-18T23:16:09Z", "-0001-02-18T23:16:09Z", "12015-02-18T23:16:09Z", "", "T", "Z"];
     for s in pins.iter() { tw.emit(parse_event(s, "pin")); nvalid += 1; }
+    // fractions of any length are valid (time-secfrac = "." 1*DIGIT): digits beyond the ninth are dropped, however many there are
+    for n in [10usize, 12, 19, 20, 100, 255, 256, 257, 1_000] {
+        tw.emit(parse_event(&format!("2015-02-18T23:16:09.{}{}+05:00", "123456789", "7".repeat(n - 9)), "pin")); nvalid += 1;
+    }
+    // ... at lengths TLC cannot scan (tens of thousands of digits) the statement is checked in its reduced form: the outcome equals the
+    // outcome for the same text cut after the ninth digit (which is itself judged above as an ordinary text)
+    for n in [4_000usize, 65_535, 65_536, 65_536 + 9, 65_536 + 10, 70_000, 1 << 17] {
+        let short = "2015-02-18T23:16:09.123456789+05:00";
+        let long = format!("2015-02-18T23:16:09.123456789{}+05:00", "7".repeat(n));
+        let res = |s: &str| match DateTime::parse_from_rfc3339(s) { Ok(b) => json!({"ok": {"u": ndt(b.naive_utc()), "off": b.offset().local_minus_utc()}}), Err(_) => json!({"err": 1}) };
+        tw.emit(ev("parse3339_longfrac", json!({"surplus": n, "s9": cps(short)}), || json!({"r9": res(short), "r": res(&long)})));
+        nvalid += 1;
+    }
     let nbase = ctx.t(2_500, 40_000);
     for _ in 0..nbase {
         let s = valid_string(&mut rng);
